@@ -92,13 +92,12 @@ pub trait Arithmetic {
     fn neg(self) -> Result<Expression, Error>;
 }
 
-impl<T> Arithmetic for T
-where
-    T: Into<CanonicalAssets> + std::fmt::Debug,
-{
+impl Arithmetic for Vec<AssetExpr> {
     fn add(self, other: Expression) -> Result<Expression, Error> {
         let y = match other {
-            Expression::Assets(x) => CanonicalAssets::from(x),
+            Expression::Assets(x) => try_canonical_assets(&x).ok_or_else(|| {
+                Error::InvalidBinaryOp("add".to_string(), format!("{self:?}"), format!("{x:?}"))
+            })?,
             Expression::None => CanonicalAssets::empty(),
             other => {
                 return Err(Error::InvalidBinaryOp(
@@ -110,10 +109,11 @@ where
         };
 
         let lhs = format!("{self:?}");
-        let x = self.into();
-        let total = x.checked_add(y).ok_or_else(|| {
-            Error::InvalidBinaryOp("add".to_string(), lhs, "overflow".to_string())
-        })?;
+        let total = try_canonical_assets(&self)
+            .and_then(|x| x.checked_add(y))
+            .ok_or_else(|| {
+                Error::InvalidBinaryOp("add".to_string(), lhs, "overflow".to_string())
+            })?;
         Ok(Expression::Assets(total.into()))
     }
 
@@ -124,9 +124,8 @@ where
 
     fn neg(self) -> Result<Expression, Error> {
         let operand = format!("{self:?}");
-        let negated = self
-            .into()
-            .checked_neg()
+        let negated = try_canonical_assets(&self)
+            .and_then(|x| x.checked_neg())
             .ok_or_else(|| Error::InvalidUnaryOp("neg".to_string(), operand))?;
         Ok(Expression::Assets(negated.into()))
     }
@@ -626,7 +625,10 @@ impl Composite for Coerce {
             Self::NoOp(x) => Ok(Self::NoOp(x)),
             Self::IntoAssets(x) => Ok(Self::NoOp(x.into_assets()?)),
             Self::IntoDatum(x) => Ok(Self::NoOp(x.into_datum()?)),
-            Self::IntoScript(x) => todo!(),
+            Self::IntoScript(x) => Err(Error::InvalidUnaryOp(
+                "into_script".to_string(),
+                format!("{x:?}"),
+            )),
         }
     }
 }
@@ -678,6 +680,28 @@ impl Composite for BuiltInOp {
             Self::NoOp(x) => Ok(Self::NoOp(x.reduce()?)),
         }
     }
+}
+
+/// Converts a constant asset list into canonical assets, failing - instead of
+/// panicking - when an amount is not a number or a total overflows.
+pub fn try_canonical_assets(assets: &[AssetExpr]) -> Option<CanonicalAssets> {
+    let mut result = CanonicalAssets::empty();
+
+    for asset in assets {
+        let Expression::Number(amount) = &asset.amount else {
+            return None;
+        };
+
+        let asset = CanonicalAssets::from_asset(
+            asset.expect_constant_policy(),
+            asset.expect_constant_name(),
+            *amount,
+        );
+
+        result = result.checked_add(asset)?;
+    }
+
+    Some(result)
 }
 
 impl From<AssetExpr> for CanonicalAssets {
